@@ -55,7 +55,7 @@ ANCHORS = ["txtorcon.torstate:TorState._maybe_attach", "txtorcon.torstate:TorSta
            "txtorcon.circuit:_CircuitAttacher.attach_stream", "txtorcon.circuit:_CircuitAttacher._add_real_target",
            "txtorcon.circuit:TorCircuitEndpoint.connect", "txtorcon.attacher:PriorityAttacher.attach_stream"]
 FLOORS = {"quick": {"evaluations": 800, "streams_judged": 2500, "via_connections_judged": 600,
-                    "via_connections_on_a_reused_local_port": 30, "events_for_unattached_stream_while_attacher_undecided": 100, "attacher_removed_while_answers_pending": 40, "attachstream_commands_refused_by_tor": 15,
+                    "via_connections_on_a_reused_local_port": 30, "events_for_unattached_stream_while_attacher_undecided": 100, "attacher_removed_while_answers_pending": 40, "tor_internal_streams_announced": 150, "reinstalls_before_removal_was_acknowledged": 40, "attachstream_commands_refused_by_tor": 15,
                     "second_attacher_compares_equal": 50, "sub_attacher_removed_itself_while_consulted": 60, "streams_first_seen_already_closed": 80,
                     "streams_first_seen_already_failed": 80, "decided_streams_ended_by_failed": 300,
                     "reach:txtorcon.torstate:TorState._maybe_attach": 2000,
@@ -215,7 +215,7 @@ class World(object):
 ANSWERS = ["built", "launched", "extended", "closed", "foreign", "string", "int", "none", "dna", "raise",
            "false", "zero", "empty-string", "empty-list", "fresh"]
 MODES = ["sync", "deferred", "coroutine", "coroutine-await"]
-KINDS = ["NEW", "NEWRESOLVE", "exit"]
+KINDS = ["NEW", "NEWRESOLVE", "exit", "internal"]      # internal: a stream Tor opened itself (directory fetch)
 
 
 def make_attacher(world, plan, log):
@@ -413,6 +413,24 @@ def run_answers(case, rec):
     if lines != ["SETCONF __LeaveStreamsUnattached=1"]:
         rec.violation("install-does-not-tell-tor", "install" + ("/priority-attacher-empty-at-install" if case.get("priority") and case.get("priority_late") else ""),
                       {"lines": lines}, case)
+    if case.get("reinstall_before_removal_ack"):
+        # the application removes its attacher and installs it again at once, before Tor has
+        # answered the removal: Tor must end up told to leave streams unattached, and the attacher
+        # is the installed one for every stream that follows
+        setconf_before = len([l for l in w.tor.lines if l.startswith("SETCONF")])
+        w.state.set_attacher(None, w.reactor)
+        try:
+            w.state.set_attacher(installed, w.reactor)
+            refused = None
+        except Exception as e:
+            refused = repr(e)
+        w.pump()
+        rec.count("reinstalls_before_removal_was_acknowledged")
+        lines = [l for l in w.tor.lines if l.startswith("SETCONF")][setconf_before:]
+        if refused or lines != ["SETCONF __LeaveStreamsUnattached=0", "SETCONF __LeaveStreamsUnattached=1"] \
+                or w.conf.get("__LeaveStreamsUnattached") != ["1"]:
+            rec.violation("reinstall-does-not-tell-tor", "attacher-ops/reinstalled-before-removal-acknowledged",
+                          {"lines": lines, "store": w.conf.get("__LeaveStreamsUnattached"), "refused": refused}, case)
     # circuit 6 was built and closed before the streams (answer kind "closed")
     w.circ_event(6, "LAUNCHED", 0)
     w.circ_event(6, "BUILT", 3)
@@ -424,10 +442,16 @@ def run_answers(case, rec):
         if op == "new":
             p = plan[step[1]]
             target = {"NEW": "example.com:80", "NEWRESOLVE": "example.org:0",
-                      "exit": "www.example.com.%s.exit:80" % NICKS[0]}[p["kind"]]
+                      "exit": "www.example.com.%s.exit:80" % NICKS[0],
+                      "internal": "10.0.0.3:9001"}[p["kind"]]
             status = "NEWRESOLVE" if p["kind"] == "NEWRESOLVE" else "NEW"
-            w.stream_event(p["sid"], status, 0, target,
-                           " SOURCE_ADDR=127.0.0.1:%d PURPOSE=%s" % (40000 + p["sid"], "DNS_REQUEST" if status == "NEWRESOLVE" else "USER"))
+            if p["kind"] == "internal":
+                # with __LeaveStreamsUnattached=1 Tor leaves its own directory fetches to the controller too
+                rec.count("tor_internal_streams_announced")
+                w.stream_event(p["sid"], status, 0, target, " SOURCE_ADDR=(Tor_internal):0 PURPOSE=DIR_FETCH")
+            else:
+                w.stream_event(p["sid"], status, 0, target,
+                               " SOURCE_ADDR=127.0.0.1:%d PURPOSE=%s" % (40000 + p["sid"], "DNS_REQUEST" if status == "NEWRESOLVE" else "USER"))
             if p["mode"] in ("sync", "coroutine"):
                 decided_at[p["sid"]] = expected_decision(w, p)
         elif op == "fire":
@@ -625,7 +649,7 @@ def gen_answers_case(rnd, combo=None):
     return {"kind": "answers", "streams": streams, "steps": steps, "remove": rnd.random() < 0.4 and not removed_mid,
             "refuse_attach": refuse, "second_equal": rnd.random() < 0.5, "self_removing": rnd.random() < 0.5,
             "priority": rnd.choice([0, 0, 2, 5]), "priority_late": rnd.random() < 0.4,
-            "remove_before_ack": rnd.random() < 0.2, "chunking": gen.chunking(rnd)}
+            "remove_before_ack": rnd.random() < 0.2, "reinstall_before_removal_ack": rnd.random() < 0.15, "chunking": gen.chunking(rnd)}
 
 
 # ---------------------------------------------------------------------------
